@@ -23,13 +23,21 @@ def u1_stickiness(src, max_members, ntopics, max_parts, rounds):
         src.note({"kind": kind, "partitions": parts, "first": res, "second": res2})
         A.check_validity(src, "sticky", parts, subs2, res2, tag=f"round {r + 2}: ")
         A.check_sticky(src, kind, parts, subs, res, subs2, res2, gone, new, tag=f"round {r + 2}: ")
+        if r == 0 and kind == "same" and same and len(subs) >= 2:
+            # generation conflicts: a member that missed generation 2 re-joins with its generation-1 data;
+            # w.r.t. generation 2 it is a new member, so nothing may move between the members of generation 2
+            sr = A.stale_rejoin(src, parts, subs, res)
+            if sr is not None:
+                absent, s2, r2, r3 = sr
+                A.check_validity(src, "sticky", parts, subs, r3, tag="stale re-join: ")
+                A.check_sticky(src, "plus", parts, s2, r2, subs, r3, set(), {absent}, tag="stale re-join: ")
         subs, res = subs2, res2
         gen += 1
 
 
 def harnesses(tier):
     q = tier == "quick"
-    confs = [(3, 1, 4, 1), (3, 2, 2, 1)] if q else [(4, 2, 4, 1), (3, 2, 3, 2), (4, 1, 6, 2)]
+    confs = [(3, 1, 9, 1), (3, 2, 2, 1)] if q else [(4, 2, 4, 1), (3, 2, 3, 2), (4, 1, 10, 2)]
     hs = []
     for mm, nt, mp, rounds in confs:
         hs.append(Harness(
